@@ -74,7 +74,8 @@ func c15Reopen(c *Ctx, kind string) {
 		buckets = []string{impl.SingleBucketName}
 		r.tell("mkbucket " + hx(impl.SingleBucketName))
 	}
-	keys := []string{"x", "d/e", "d/f/g", "d-e", "h/i"}
+	// incl. keys named like what the backends keep for themselves
+	keys := []string{"x", "d/e", "d/f/g", "d-e", "h/i", ".modtime-resolution", "metadata", "buckets/x", "_meta", "bucket/bk1"}
 	dead := false
 	step := func(line, obs, finger string) {
 		if dead {
